@@ -256,6 +256,7 @@ def run(ctx):
     _library_keys(ctx, fw)
     _cycle_search_is_linear(ctx)
     _cycle_search_starts_from_one_node(ctx)
+    _edges_do_not_depend_on_the_graph_so_far(ctx)
     # emission loops (iterator-style `for` or range-for)
     n_em = 0
     for n in fw.walk():
@@ -450,3 +451,54 @@ def _cycle_search_starts_from_one_node(ctx):
                    "`%s` outlives the iteration and is emptied on every way to the call" % r.get("n") if not stale else
                    "`%s` outlives the iteration and can reach the call still holding the previous search's path" % r.get("n"))
     ctx.floor("R16.5", "callers of find_dependency_cycle", n, 1)
+
+
+def _edges_do_not_depend_on_the_graph_so_far(ctx):
+    """R16.6: the dependency graph is filled in one pass over the types, in database order.  Whether an edge "library of
+    the derived type -> library of its base" is recorded may depend on the two types only - never on what the map holds
+    at that moment, which is a function of the order of the .in files on the command line.  (Seed S9-C16: edges were
+    recorded only if `dependencies.count(baselib) != 0`; a base library that publishes types but no functions has no
+    key yet when the derived library's types come first, and the module then initialises the derived library first.)"""
+    db = ctx.db
+    ctx.rule("R16.6", "in write_python_table_native, no condition on the way to an insert into a library's dependency set reads the dependencies map itself")
+    fs = [g for g in db.functions if g.name.endswith("write_python_table_native")]
+    if not fs:
+        ctx.broken("R16.6: write_python_table_native not found")
+        return
+    f = fs[0]
+    dep = None
+    for y in f.walk():
+        if y.get("k") == "decls":
+            for dd in y["d"]:
+                if dep is None and "map<" in (dd.get("t") or "") + (dd.get("ct") or "") and "set<" in (dd.get("t") or "") + (dd.get("ct") or ""):
+                    dep = dd
+    if dep is None:
+        ctx.broken("R16.6: the dependencies map was not found")
+        return
+    # references bound to an element of the map
+    aliases = {dep["d"]}
+    for y in f.walk():
+        if y.get("k") == "decls":
+            for dd in y["d"]:
+                if dd.get("init") is not None and (dd.get("t") or "").rstrip().endswith("&") and any(z.get("k") == "ref" and z.get("d") == dep["d"] for z in walk(dd["init"])):
+                    aliases.add(dd["d"])
+    n = 0
+    for c in f.walk():
+        if not (c.get("k") == "call" and callee_short(c) in ("insert", "emplace") and "this" in c):
+            continue
+        roots = [z for z in walk(c["this"]) if z.get("k") == "ref" and z.get("d") in aliases]
+        if not roots:
+            continue
+        # only the edge-collection phase: before the ordering loop (which legitimately reads the map)
+        if any(lp.get("k") == "while" for lp in enclosing_loops(f, c)):
+            continue
+        n += 1
+        bad = []
+        for a in f.ancestors(c):
+            if a.get("k") == "if" and any(z is c for z in walk(a.get("then") or {})):
+                if any(z.get("k") == "ref" and z.get("d") == dep["d"] for z in walk(a["c"])):
+                    bad.append(a)
+        ctx.ob("R16.6", "write_python_table_native|%s|edge-independent-of-map-state" % show(c)[:50].replace(" ", ""), not bad, f.loc(c),
+               "the edge is recorded whatever the map holds so far" if not bad else
+               "the edge is recorded only if `%s`: that depends on the order in which libraries were met" % show(bad[0]["c"])[:70])
+    ctx.floor("R16.6", "edge inserts in the collection phase", n, 2)
